@@ -128,12 +128,11 @@ def opC14Names (j : Json) : Except String Json := do
   let rpc ← getStrL j "rpc"
   let internal ← getBoolK j "internal"
   let snake := Pinned.Funcs.to_snake_case
-  let kw := Pinned.pyKeywords.map String.toList
   let mk (t : List Char) : Spec := ⟨[], [], .grpc, t⟩
   let id := sampleId (fun _ => h) (tags.map mk) (mk tag)
   pure (Json.mkObj [("id", jstr id), ("file", jstr (sampleFile snake id)), ("function", jstr (sampleFunction snake rpc)),
-    ("called_method", jstr (calledMethod snake rpc internal)),
-    ("metadata_method", jstr (metadataMethod snake kw rpc internal))])
+    ("called_method", jstr (calledMethod snake Pinned.Funcs.client_method_name rpc internal)),
+    ("metadata_method", jstr (metadataMethod snake Pinned.Funcs.client_method_name rpc internal))])
 
 def opC14Params (j : Json) : Except String Json := do
   let cs ← getBoolK j "cs"
